@@ -62,6 +62,12 @@ def run(ctx: Ctx):
                         t = float.fromhex(rs[-1][0])
                 ticks.append({"out": float(out).hex(), "readings": rs})
             hs.append({"start": float(start).hex(), "ticks": ticks})
+        if keys:
+            # polling: the same output time requested before and after a reading stamped exactly at the filter's current time
+            t_out = float(1.5 + 2.5 * max_dt).hex()
+            hs.append({"start": float(1.5).hex(), "ticks": [{"out": t_out, "readings": None}, {"out": t_out, "readings": [[float(1.5).hex(), 0]]},
+                                                             {"out": t_out, "readings": None}, {"out": t_out, "readings": [[float(1.5).hex(), len(keys) - 1]]},
+                                                             {"out": t_out, "readings": None}]})
         jobs.append({"defn": d, "cse": bool(i % 2), "k": None, "max_dt": max_dt, "decl": {"container": "set", "perm_seed": i},
                      "point": ekf.make_points(ctx.rng, d, 1)[0], "histories": hs, "combo": (fc, fl), "nsens": len(keys)})
     res = ctx.run_impl_jobs("cpp_mf.py", jobs, timeout=3000)
